@@ -146,6 +146,7 @@ type World struct {
 	Codec        string
 	LinkKeyBytes []byte
 	ShareOpts    bool
+	curProgress  chan iface.IPFSLogEntry // progress channel of the load being driven (nil: none)
 	sharedOpts   *ipfslog.LogOptions
 	Nodes        []*Node
 	Net          []*Msg
@@ -623,13 +624,13 @@ func (w *World) materialise(m *Msg, rcv *Writer) (*ipfslog.IPFSLog, error) {
 	w.driven(func(ctx context.Context) {
 		switch m.form {
 		case 2:
-			l, err = ipfslog.NewFromMultihash(ctx, w.St, rcv.ID, m.c, w.loadOpts(), &ipfslog.FetchOptions{Concurrency: conc})
+			l, err = ipfslog.NewFromMultihash(ctx, w.St, rcv.ID, m.c, w.loadOpts(), &ipfslog.FetchOptions{Concurrency: conc, ProgressChan: w.curProgress})
 		case 3:
-			l, err = ipfslog.NewFromJSON(ctx, w.St, rcv.ID, m.json, w.loadOpts(), &entry.FetchOptions{Concurrency: conc})
+			l, err = ipfslog.NewFromJSON(ctx, w.St, rcv.ID, m.json, w.loadOpts(), &entry.FetchOptions{Concurrency: conc, ProgressChan: w.curProgress})
 		case 4:
-			l, err = ipfslog.NewFromEntry(ctx, w.St, rcv.ID, append([]iface.IPFSLogEntry(nil), m.heads...), w.loadOpts(), &entry.FetchOptions{Concurrency: conc})
+			l, err = ipfslog.NewFromEntry(ctx, w.St, rcv.ID, append([]iface.IPFSLogEntry(nil), m.heads...), w.loadOpts(), &entry.FetchOptions{Concurrency: conc, ProgressChan: w.curProgress})
 		case 5:
-			l, err = ipfslog.NewFromEntryHash(ctx, w.St, rcv.ID, m.c, w.loadOpts(), &ipfslog.FetchOptions{Concurrency: conc})
+			l, err = ipfslog.NewFromEntryHash(ctx, w.St, rcv.ID, m.c, w.loadOpts(), &ipfslog.FetchOptions{Concurrency: conc, ProgressChan: w.curProgress})
 		}
 	})
 	return l, err
@@ -638,6 +639,8 @@ func (w *World) materialise(m *Msg, rcv *Writer) (*ipfslog.IPFSLog, error) {
 // driven runs a loader under the E2 fetch driver with a per-call policy.
 func (w *World) driven(fn func(ctx context.Context)) *FetchDriver {
 	d := &FetchDriver{R: w.R, St: w.St, Name: w.M.Name, HookBias: w.R.Choose("drv-bias", 3)}
+	w.withProgress(d)
+	defer func() { w.curProgress = nil }()
 	ctx, cancel := context.WithCancel(w.ctx)
 	defer cancel()
 	d.Run(func() { fn(ctx) })
@@ -646,6 +649,16 @@ func (w *World) driven(fn func(ctx context.Context)) *FetchDriver {
 		w.R.Probe("fetch-main-blocked-on-semaphore")
 	}
 	return d
+}
+
+// withProgress: in a third of the loads the application listens to the load's progress (an unbuffered
+// FetchOptions.ProgressChan); the driver plays the listener.
+func (w *World) withProgress(d *FetchDriver) {
+	if w.R.Choose("progress-listener", 3) == 0 {
+		d.Progress = make(chan iface.IPFSLogEntry)
+		w.curProgress = d.Progress
+		w.R.Probe("load-with-progress-listener")
+	}
 }
 
 func (w *World) doDeliver() {
@@ -752,14 +765,14 @@ func (w *World) restart(n *Node) {
 		if n.Durable.kind == 0 {
 			switch {
 			case how == 1 && n.Durable.json != nil && w.Codec != "pb":
-				l, err = ipfslog.NewFromJSON(ctx, w.St, n.W.ID, n.Durable.json, w.nodeLoadOpts(n), &entry.FetchOptions{Concurrency: conc})
+				l, err = ipfslog.NewFromJSON(ctx, w.St, n.W.ID, n.Durable.json, w.nodeLoadOpts(n), &entry.FetchOptions{Concurrency: conc, ProgressChan: w.curProgress})
 			case how == 2 && len(n.Durable.heads) > 0 && w.Codec != "pb":
-				l, err = ipfslog.NewFromEntry(ctx, w.St, n.W.ID, append([]iface.IPFSLogEntry(nil), n.Durable.heads...), w.nodeLoadOpts(n), &entry.FetchOptions{Concurrency: conc})
+				l, err = ipfslog.NewFromEntry(ctx, w.St, n.W.ID, append([]iface.IPFSLogEntry(nil), n.Durable.heads...), w.nodeLoadOpts(n), &entry.FetchOptions{Concurrency: conc, ProgressChan: w.curProgress})
 			default:
-				l, err = ipfslog.NewFromMultihash(ctx, w.St, n.W.ID, n.Durable.c, w.nodeLoadOpts(n), &ipfslog.FetchOptions{Concurrency: conc})
+				l, err = ipfslog.NewFromMultihash(ctx, w.St, n.W.ID, n.Durable.c, w.nodeLoadOpts(n), &ipfslog.FetchOptions{Concurrency: conc, ProgressChan: w.curProgress})
 			}
 		} else {
-			l, err = ipfslog.NewFromEntryHash(ctx, w.St, n.W.ID, n.Durable.c, w.nodeLoadOpts(n), &ipfslog.FetchOptions{Concurrency: conc})
+			l, err = ipfslog.NewFromEntryHash(ctx, w.St, n.W.ID, n.Durable.c, w.nodeLoadOpts(n), &ipfslog.FetchOptions{Concurrency: conc, ProgressChan: w.curProgress})
 		}
 	})
 	if err != nil {
